@@ -1,8 +1,14 @@
 /- Tie: the 77 productions with their action functions and precedence annotations. -/
 import SqGen.Generated
 import Sq.Spec
+import SqLemmas.ParseCFG
 namespace SqTie
 
 theorem grammar_tie : SqGen.productions = Sq.Spec.productions := by decide
+
+/-- the context-free grammar of C06's `accepted_is_grammatical` IS the list of productions PLY built from rules.py
+    in this run (left- and right-hand sides) -/
+theorem cfg_is_generated : Sq.cfg = SqGen.productions.map (fun p => (p.1, p.2.1)) := by
+  rw [grammar_tie]; rfl
 
 end SqTie
